@@ -117,7 +117,8 @@ def explore(run, driver, budget):
     for i in range(n):
         pi = ["gaussian", "nonparametric", "bootstrap", "gaussian"][i % 4]
         district = rng.random() < 0.3
-        e = E.gen_election(rng, size="medium", district=district, plain=True, min_reporting=24)
+        e = E.gen_election(rng, size="medium", district=district, min_reporting=24,
+                           roles=["reporting"] * 12 + ["partial"] * 6 + ["zero-dem-baseline", "third-party-heavy"])
         levels = ["postal_code", "county_fips", "county_classification", "unit"] + (["district"] if district else [])
         L_ = rng.sample(levels, rng.randint(2, len(levels)))
         if "postal_code" not in L_ and pi == "bootstrap":
